@@ -1673,6 +1673,8 @@ package badger
 //@   assert[same-key-only] before call NewKV : ret(Equal#1)
 //@   assert[marker-ends-the-list] before call Next : !ret(IsDeletedOrExpired#2) && !ret(DiscardEarlierVersions#1)
 //@   assert[discard-marker-just-below] before call append#2 : called(DiscardEarlierVersions#1) && ret(DiscardEarlierVersions#1)
+//@   assert[marker-one-version-below-for-the-same-key] before call append#2 : len(arg1) == 1 && arg1[0] != nil && arg1[0].Version == ret(Version#5) - 1 && arg1[0].Key == ret(KeyCopy#1) && len(arg1[0].Meta) == 1 && arg1[0].Meta[0] == bitDelete
+//@   assert[entry-as-stored] before call append#1 : len(arg1) == 1 && arg1[0] == kv && kv.Version == ret(Version#4) && kv.ExpiresAt == ret(ExpiresAt#1) && kv.Value == valCopy
 
 // Send is called from one place only, with the batch that was just filled; an empty batch is
 // not sent; its error stops the stream.
@@ -1739,6 +1741,7 @@ package badger
 //@   light
 //@   assert[batch-is-the-pending-entries] before call batchSetAsync : arg0 == l.db && arg1 == l.entries && called(Do#1) && ret(Do#1) == nil
 //@   assert[buffer-restarted-after-send] before return#3 : result == nil && len(l.entries) == 0 && l.entriesSize == 0 && ret(batchSetAsync#1) == nil
+//@   assert[next-batch-in-a-buffer-of-its-own] before return#3 : fresh(l.entries)
 
 //@ func (*KVLoader).Finish
 //@   props C24
